@@ -19,14 +19,21 @@ def sh(cmd, cwd=None, timeout=3600):
 def main():
     pids = [a for a in sys.argv[1:] if not a.startswith('--')]
     skip_tests = '--skip-tests' in sys.argv
+    root = '/tmp/mut_out'
+    tag = ''
+    for a in sys.argv[1:]:
+        if a.startswith('--src='):
+            root = a[6:]
+        if a.startswith('--tag='):
+            tag = a[6:]
     for pid in pids:
-        src = f'/tmp/mut_out/{pid}'
+        src = f'{root}/{pid}'
         for k in (1, 2, 3, 4):
             patch = f'{src}/m{k}_patch.diff'
             demo = f'{src}/m{k}_demo.py'
             if not (os.path.exists(patch) and os.path.exists(demo)):
                 continue
-            name = f'{pid}_m{k}'
+            name = f'{pid}_{tag}m{k}'
             wt = tempfile.mkdtemp(prefix='pvsim_imp_', dir='/tmp')
             os.rmdir(wt)
             assert sh(f'git -C /repo worktree add -q --detach {wt} HEAD').returncode == 0
